@@ -159,6 +159,7 @@ def c11_jobs(ctx):
     files = [f for f in files if f.endswith(".spec")]
     if files:
         jobs.append(("corpus", ["run"] + files, None))
+    jobs.append(("sweep", ["c11sweep"], None))
     parts = 3 if quick else 12
     n = 360 if quick else 12000
     for i in range(parts):
@@ -166,7 +167,9 @@ def c11_jobs(ctx):
     return jobs
 
 
-C11_TYPED_RULE = ("typed channels (base, lr, mpsc with 1-3 senders on both endpoints, oneshot, bin) over a real connection: the "
+C11_TYPED_RULE = ("typed channels (base, lr, mpsc with 1-3 senders on both endpoints, oneshot, bin) over a real connection; a systematic sweep "
+                  "(every kind x close / receiver dropped / senders dropped / connection cut x every position 0..5 of a five-item stream with "
+                  "one streamed item) plus generated cases: the "
                   "receiver closes / is dropped / the connection is cut after a generated number of results, or all senders are dropped "
                   "after a generated number of sends; checked on the real results: every item sent successfully is delivered when the "
                   "receiver keeps receiving (close, all senders dropped => end-of-stream only after all data), sends after the sender "
